@@ -11,7 +11,7 @@ int __lsan_do_recoverable_leak_check(void) __attribute__((weak));
 static int count_fds(void) { DIR *d = opendir("/proc/self/fd"); int n = 0; struct dirent *e; while ((e = readdir(d))) if (e->d_name[0] != '.') n++; closedir(d); return n - 1; }
 
 /* ------------------------------------------------------------ scenarios */
-static int P, J, BOUND, SPUR, UNLOCKPTS;
+static int P, J, BOUND, SPUR, UNLOCKPTS, J2 = -1, SMEM = 1;   /* J2: jobs of the second caller thread when it differs from J (argument j2=) */
 static const char *SCEN;
 static char g_oracle[512];
 
@@ -42,7 +42,7 @@ static bool client_check(client *c, bool ordered, int njobs) {
 	return true;
 }
 static struct threadpool *g_shared_pool; static bool g_ordered2;
-static void *caller_thread(void *arg) { client *c = arg; client_run(c, g_shared_pool, g_ordered2, J); return NULL; }
+static void *caller_thread(void *arg) { client *c = arg; client_run(c, g_shared_pool, g_ordered2, J2 >= 0 ? J2 : J); return NULL; }
 
 static bool scen_pool(bool ordered, int nclients, bool two_callers) {
 	struct threadpool *pool = threadpool_init(P);
@@ -60,7 +60,7 @@ static bool scen_pool(bool ordered, int nclients, bool two_callers) {
 		for (int c = 0; c < nclients; c++) result_handler_destroy(&rh[c]);
 	}
 	threadpool_destroy(&pool);
-	for (int c = 0; c < (two_callers ? 2 : nclients); c++) if (!client_check(&cl[c], ordered, J)) return false;
+	for (int c = 0; c < (two_callers ? 2 : nclients); c++) if (!client_check(&cl[c], ordered, (two_callers && c == 1 && J2 >= 0) ? J2 : J)) return false;
 	return true;
 }
 
@@ -127,7 +127,7 @@ static bool scen_sorter(bool destroy_early) {
 	static const char *keys[] = { "b", "a", "b", "a" };
 	struct mtbl_threadpool *tp = mtbl_threadpool_init(P);
 	struct mtbl_sorter_options *so = mtbl_sorter_options_init();
-	mtbl_sorter_options_set_temp_dir(so, g_tmpdir); mtbl_sorter_options_set_max_memory(so, 1);
+	mtbl_sorter_options_set_temp_dir(so, g_tmpdir); mtbl_sorter_options_set_max_memory(so, (size_t) SMEM);   /* 1: every add spills; mem=40: two entries per chunk, so a rest stays buffered until iteration starts */
 	mtbl_sorter_options_set_merge_func(so, fold_merge, NULL); mtbl_sorter_options_set_threadpool(so, tp);
 	struct mtbl_sorter *s = mtbl_sorter_init(so); mtbl_sorter_options_destroy(&so);
 	char vb[8];
@@ -296,7 +296,7 @@ int main(int argc, char **argv) {
 		static char sc[64]; static uint8_t pfx[VS_MAXPTS]; int np = 0, off = 0;
 		if (sscanf(vh_case_arg, "V:%63[^:]:%d:%d:%d:%d:%n", sc, &P, &J, &SPUR, &UNLOCKPTS, &off) < 5) return 2;
 		SCEN = sc; BOUND = 99;
-		for (int i = 0; i < vh_argc; i++) if (!strncmp(vh_argv[i], "comp=", 5)) g_wcomp = atoi(vh_argv[i] + 5);   /* the driver passes the job's arguments on replay */
+		for (int i = 0; i < vh_argc; i++) { if (!strncmp(vh_argv[i], "comp=", 5)) g_wcomp = atoi(vh_argv[i] + 5); if (!strncmp(vh_argv[i], "j2=", 3)) J2 = atoi(vh_argv[i] + 3); if (!strncmp(vh_argv[i], "mem=", 4)) SMEM = atoi(vh_argv[i] + 4); }   /* the driver passes the job's arguments on replay */
 		const char *s = vh_case_arg + off; while (*s) { int v, o2; if (sscanf(s, "%d%n", &v, &o2) < 1) break; pfx[np++] = v; s += o2; if (*s == '.') s++; }
 		if (!strncmp(SCEN, "writer", 6)) { tkv e[8]; writer_input(e, J); tcfg cfg = { 0 }; cfg.comp = g_wcomp; cfg.block_size = 1024; int fd = tbl_write(&cfg, e, J, NULL); g_base = tbl_slurp(fd, &g_baselen); close(fd); }
 		vh_case_begin(render, NULL);
@@ -306,7 +306,7 @@ int main(int argc, char **argv) {
 		return vh_finish();
 	}
 	SCEN = vh_arg(0, "pool-ordered"); P = atoi(vh_arg(1, "1")); J = atoi(vh_arg(2, "2")); BOUND = atoi(vh_arg(3, "1"));
-	for (int i = 4; i < vh_argc; i++) { if (!strncmp(vh_argv[i], "spur=", 5)) SPUR = atoi(vh_argv[i] + 5); if (!strcmp(vh_argv[i], "unlockpts")) UNLOCKPTS = 1; if (!strcmp(vh_argv[i], "nocache")) g_use_cache = 0; if (!strncmp(vh_argv[i], "comp=", 5)) g_wcomp = atoi(vh_argv[i] + 5); }
+	for (int i = 4; i < vh_argc; i++) { if (!strncmp(vh_argv[i], "spur=", 5)) SPUR = atoi(vh_argv[i] + 5); if (!strcmp(vh_argv[i], "unlockpts")) UNLOCKPTS = 1; if (!strcmp(vh_argv[i], "nocache")) g_use_cache = 0; if (!strncmp(vh_argv[i], "comp=", 5)) g_wcomp = atoi(vh_argv[i] + 5); if (!strncmp(vh_argv[i], "j2=", 3)) J2 = atoi(vh_argv[i] + 3); if (!strncmp(vh_argv[i], "mem=", 4)) SMEM = atoi(vh_argv[i] + 4); }
 	if (!strncmp(SCEN, "writer", 6)) { tkv e[8]; writer_input(e, J); tcfg cfg = { 0 }; cfg.comp = g_wcomp; cfg.block_size = 1024; int fd = tbl_write(&cfg, e, J, NULL); g_base = tbl_slurp(fd, &g_baselen); close(fd); }
 	for (int i = 4; i < vh_argc; i++) if (!strncmp(vh_argv[i], "free=", 5)) {
 		/* free-running cross-check: real pthreads, no scheduler; repeated a fixed number of times per shard */
